@@ -121,7 +121,7 @@ CHECKS = {
              "exact-distance reading of the float run are evaluated per run in exact rational arithmetic against Go's output, with the Lean Float mirror "
              "reproducing Go's indexes bit for bit.",
         note=NOTE_COMMON + "Partial: the threshold and idempotence theorems are about the distance values the code computes; in exact arithmetic those are the distances to the segment (C20_distSegSq_is_min); "
-             "for the float run their agreement with exact distances is judged by the rational oracle with a 1e-9 relative slack.",
+             "for the float run their agreement with exact distances is judged by the rational oracle with a slack of min(1e-9*thr^2, 64*2^-53*M^2) on the squared distance (M = largest ordinate of the three points: a rounding bound).",
     ),
     "C10": dict(
         technique="Lean 4 theorems over ordered commutative rings (determinant identities, antisymmetry, cyclic invariance, filter exits, integer-grid exactness) + bit-exact correspondence of the filter stage (verif hook) + exact rational sign oracle",
